@@ -124,6 +124,11 @@ def _hash_numeric_tower(pid, facet, spec, label):
         and label == "C03:hash-numeric-tower"
 
 
+@matcher("hash-word-vs-box")
+def _hash_word_vs_box(pid, facet, spec, label):
+    return pid == "C03" and label == "C03:hash-word-vs-box"
+
+
 def _c13(pid, facet, spec):
     return pid == "C13" and facet in ("export", "roundtrip") and "d" in spec
 
